@@ -66,7 +66,7 @@ PROPS["C03"] = dict(
                 "due = enter + sum of tocks) is a paper induction over the per-cycle contract; the native harness checks it on random forests.",
 )
 PROPS["C05"] = dict(
-    contracts=["contracts.c05_do", "contracts.sched_bounded", "contracts.c01_lifecycle", "contracts.c08_timers"],
+    contracts=["contracts.c05_do", "contracts.sched_bounded", "contracts.sched_bounded2", "contracts.c01_lifecycle", "contracts.c08_timers"],
     harness="harness.sched_props:C05", level="other",
     trusted_base=["dog protocol model in contracts/sched.py"], assumptions=SCHED_ASSUME,
     explanation="Doist.do PROVED (outer loop cut by invariant, any number of cycles): leaves at the first cycle that empties deeds with done True, "
